@@ -252,7 +252,7 @@ func (r *Regexp) String() string {
 func (r *Regexp) ToKey(b *bytes.Buffer) {
 	b.WriteByte(1)
 	b.WriteByte(HkRegexp)
-	b.Write([]byte(r.pattern.String()))
+	appendKeyBytes(b, r.pattern.String())
 }
 
 func (r *Regexp) ToString(b io.Writer, s px.FormatContext, g px.RDetect) {
